@@ -381,6 +381,36 @@ fn limb_boundary_impl(r: &mut Rng, short: bool, force_deep: bool) -> Input {
     }
 }
 
+/// Requests that land in `compute_float`'s "128-bit product inconclusive" branch (low product
+/// word all ones): 17 (significand, exponent) pairs exist for the pinned table, none of which a
+/// random draw would ever hit (2^-64 per request). Solved from the table by tools/lemire_rare.py.
+/// Delivered as they are, with further digits behind the 19th (the stage then also runs on
+/// w + 1), or re-split; f32 and f64 callers both get them.
+fn lemire_inconclusive(r: &mut Rng) -> Input {
+    let t = crate::lemire_rare::LEMIRE_RARE;
+    if t.is_empty() {
+        let d = Dec { digits: random_digits(r, 19), dec_exp: r.range(-340, 300) };
+        return split(&d, r, "moderate");
+    }
+    let (_is_f64, safe, m, q) = *r.pick(t);
+    let mut digits = m.to_string().into_bytes();
+    let mut dec_exp = q as i64;
+    let name = if safe { "lemire_inconclusive_safe_q" } else { "lemire_inconclusive" };
+    if r.chance(1, 2) {
+        let cap = if r.chance(1, 8) { 800 } else { 30 };
+        let n = 1 + r.usize_below(cap);
+        let mut tail = match r.below(3) {
+            0 => vec![b'0'; n],
+            1 => vec![b'9'; n],
+            _ => random_digits(r, n),
+        };
+        *tail.last_mut().unwrap() = r.nonzero_digit();
+        dec_exp -= tail.len() as i64;
+        digits.extend_from_slice(&tail);
+    }
+    split(&Dec { digits, dec_exp }, r, name)
+}
+
 #[derive(Clone, Copy, Debug, PartialEq, Eq)]
 pub enum Mix {
     /// C16: everything
@@ -394,9 +424,9 @@ pub enum Mix {
 /// Draw one valid request.
 pub fn draw_input(r: &mut Rng, mix: Mix, is_f64_hint: bool, rare_huge: bool) -> Input {
     let fam = match mix {
-        Mix::Balanced => r.weighted(&[10, 12, 34, 14, 8, 6, 8, 5, 5]),
-        Mix::AllocHeavy => r.weighted(&[4, 6, 50, 12, 4, 2, 10, 6, 6]),
-        Mix::Short => r.weighted(&[15, 15, 48, 5, 10, 5, 0, 1, 3]),
+        Mix::Balanced => r.weighted(&[10, 12, 34, 14, 8, 6, 8, 5, 5, 2]),
+        Mix::AllocHeavy => r.weighted(&[4, 6, 50, 12, 4, 2, 10, 6, 6, 2]),
+        Mix::Short => r.weighted(&[15, 15, 48, 5, 10, 5, 0, 1, 3, 2]),
     };
     match fam {
         0 => {
@@ -500,6 +530,7 @@ pub fn draw_input(r: &mut Rng, mix: Mix, is_f64_hint: bool, rare_huge: bool) -> 
             inp
         },
         8 => limb_boundary(r, mix == Mix::Short),
+        9 => lemire_inconclusive(r),
         4 => {
             // extremes
             let n = 1 + r.usize_below(40);
